@@ -535,6 +535,10 @@ class Spectrum:
 
         """
         wave = np.asarray(wave)
+        if wave.dtype.kind == 'f':
+            # bin edges and mid-points of centres held in single or half
+            # precision are formed in double precision
+            wave = wave.astype(float)
 
         if wave.size < 2:
             raise ValueError('Spectrum.bin requires a minimum of two wavelengths.\n'
